@@ -311,6 +311,10 @@ func stringToFloat(s string, bitSize int) (float64, error) {
 // bigIntToFloat64 returns the nearest float64, or an error when the magnitude
 // is beyond the float64 range (big.Int.Float64 would yield +-Inf).
 func bigIntToFloat64(x *big.Int) (float64, error) {
+	if x == nil {
+		// a typed nil *big.Int (reached through a pointer to it) has no value to convert
+		return 0, NewNilPointerError("float64")
+	}
 	f, _ := x.Float64()
 	if math.IsInf(f, 0) {
 		return 0, NewOverflowError(x.String(), "float64")
